@@ -52,7 +52,8 @@ def run(ctx):
     ctx.rule = (
         "TLC: NeverWedged, RefusedOnlyWhenBusy, OneLive, GateSound over all histories of <= 3 connections / 14 steps of Client.tla; "
         "families on the real APIClient: a disturbance (disconnect, force, peer close, EOF, reset, resolve/connect error, bad hello, bad password, "
-        "timeout, second start) at EVERY stage of a connect with every gap followed by fresh attempts; every public API method at every stage "
+        "timeout, second start) at EVERY stage of a connect with every gap followed by fresh attempts; a stop callback that reconnects / issues a "
+        "command in its first step, for every way a session can end; every public API method at every stage "
         "without an authenticated session; random multi-session histories; each trace validated by TLC (TraceClient.tla): pointer identity, state of "
         "every connection object, operation outcomes, writes of refused calls; distinct = distinct schedule"
     )
@@ -61,7 +62,9 @@ def run(ctx):
     fams = {
         "stages": clientsim.stage_family(CFGS),
         "gate_sweep": clientsim.gate_sweep(CFGS),
-        "random": [(c, clientsim.random_history(rng, c, rng.randrange(1, 4), rng.choice((0.1, 0.25, 0.5)))) for c in (rng.choice(CFGS) for _ in range(1500 if ctx.quick else 30000))],
+        "stop_hook": clientsim.stop_hook_family(CFGS),
+        "random": [(c, clientsim.random_history(rng, c, rng.randrange(1, 4), rng.choice((0.1, 0.25, 0.5))))
+                   for c in (dict(rng.choice(CFGS), hook=rng.choice(("none", "none", "start", "api"))) for _ in range(1500 if ctx.quick else 30000))],
     }
     for name, cases in fams.items():
         res = run_family(ctx, name, cases)
